@@ -448,44 +448,47 @@ def rule_Q(ctx):
     rb = c.methods.get('_rebuild_heap')
     if not (ps and si and rb):
         raise anchor_error('priority_dict methods not found', PD)
-    # pop_smallest: pops from the heap until (key in self and self[key] == popped priority), deletes key, returns it
-    loops = [n for n in ast.walk(ps.node) if isinstance(n, ast.While)]
-    if len(loops) != 1:
-        raise shape_error('pop_smallest: expected one skipping loop', ps.loc())
-    wl = loops[0]
-    # interpret the loop test on the 4 cases (key present?, stored priority equals popped?)
-    bad = []
-    names = sorted({n.id for n in ast.walk(wl.test) if isinstance(n, ast.Name)})
-    tgt = None
-    for s in body_nodocstring(ps):
-        if isinstance(s, ast.Assign) and isinstance(s.targets[0], ast.Tuple) and len(s.targets[0].elts) == 2 \
-                and isinstance(s.value, ast.Call) and 'heappop' in unparse(s.value.func):
-            tgt = [e.id for e in s.targets[0].elts]
-    if tgt is None:
-        raise shape_error('pop_smallest: (priority, key) = heappop(heap) not found', ps.loc())
-    vname, kname = tgt
-    for present in (True, False):
-        for same in (True, False):
-            class D(dict):
-                pass
-            d = orders.Table('self', {'K': 5 if same else 6} if present else {})
-            env = {'self': _DictLike(d.copy()), kname: 'K', vname: 5}
-            try:
-                skip = bool(_ev_dict(wl.test, env))
-            except orders.Unsupported as e:
-                raise shape_error('pop_smallest test not interpretable: %s' % e, ps.loc(wl))
-            if skip != (not (present and same)):
-                bad.append({'key still queued': present, 'stored priority == popped priority': same, 'entry skipped': skip})
-    ctx.check(not bad, 'C06.Q', ps, 'a popped heap entry is skipped exactly when it is stale (key gone or priority changed)',
-              witness={'wrong cases': bad}, node=wl, key='stale')
+    # pop_smallest on small queue states: heap entries in priority order, some stale (key gone / priority changed)
     body = body_nodocstring(ps)
-    dels = [s for s in body if isinstance(s, ast.Delete) and unparse(s.targets[0]) == 'self[%s]' % kname]
-    rets = [s for s in body if isinstance(s, ast.Return)]
-    ctx.check(len(dels) == 1 and len(rets) == 1 and unparse(rets[0].value) == kname and
-              body.index(dels[0]) > body.index(wl), 'C06.Q', ps, 'the returned key is removed from the queue',
-              witness={'deletes': [unparse(d) for d in dels]}, node=ps.node, key='del')
-    inner_pops = [n for n in ast.walk(wl) if isinstance(n, ast.Call) and 'heappop' in unparse(n.func)]
-    ctx.check(len(inner_pops) >= 1, 'C06.Q', ps, 'skipping a stale entry pops the next one', witness={}, node=wl, key='next')
+    scen = []
+    for stale_kinds in ((), ('gone',), ('changed',), ('gone', 'changed'), ('changed', 'gone', 'changed')):
+        heap = []
+        live = {'L': 50, 'M': 70}
+        pr = 1
+        for kd in stale_kinds:
+            if kd == 'gone':
+                heap.append((pr, 'G%d' % pr))
+            else:
+                heap.append((pr, 'L'))          # an older, smaller priority of a key that was re-queued at 50
+            pr += 1
+        heap += [(50, 'L'), (70, 'M')]
+        scen.append((stale_kinds, heap, live))
+    bad = []
+    for stale_kinds, heap, live in scen:
+        q = orders.Table('self', dict(live))
+        hp = list(heap)
+        env = {'self': q, 'self._heap': hp}
+        popped = []
+
+        def heappop(h):
+            if not h:
+                raise orders.Unsupported('pop from an empty heap')
+            popped.append(h[0])
+            return h.pop(0)
+        try:
+            kind, val = orders.run_block(body, env, funcs={'heappop': heappop})
+        except orders.Unsupported as e:
+            if 'empty heap' in str(e) or 'absent key' in str(e):
+                bad.append({'stale entries before the smallest live one': list(stale_kinds), 'heap': heap, 'queue': live, 'outcome': str(e)})
+                continue
+            raise shape_error('pop_smallest not interpretable: %s' % e, ps.loc())
+        ok = kind == 'return' and val == 'L' and 'L' not in q and q == {'M': 70} and hp == [(70, 'M')]
+        if not ok:
+            bad.append({'stale entries before the smallest live one': list(stale_kinds), 'heap': heap, 'queue': live,
+                        'returned': val, 'queue after': dict(q), 'heap after': hp})
+    ctx.check(not bad, 'C06.Q', ps,
+              'pop_smallest skips exactly the stale heap entries (key gone or priority changed), returns the live key of smallest priority and removes it',
+              witness={'wrong cases': bad[:3]}, node=ps.node, key='stale')
     # __setitem__: stores in the dict and pushes (priority, key) (or rebuilds)
     key, val = si.params[1:3]
     txt = unparse(si.node)
@@ -584,7 +587,7 @@ def rule_A(ctx):
             ctx.check(okc, 'C06.A', f, 'each source is searched with exactly the caller\'s cut-off (0 included)',
                       witness={'cut-off passed': vr(a_cut), 'on the path': pathtxt,
                                'why': 'a truthiness test such as `if not cut` replaces the legitimate cut-off 0 by an unbounded search'}, node=c.node, key='cut')
-            okd = isinstance(a_od, Rat) and (a_od.single_atom() == od or (a_od.single_atom() or '').startswith('dict('))
+            okd = isinstance(a_od, Rat) and (a_od.single_atom() == od or (a_od.single_atom() or '').startswith(('dict(', 'dict<')))
             ok = isinstance(c.args[0], Rat) and c.args[0].single_atom() == l.target.id and okd and a_t is None
             ctx.check(ok, 'C06.A', f, 'each source is searched with the shared table and no target', witness={'call': unparse(c.node)}, node=c.node, key='fwd-args')
     if n == 0:
@@ -603,7 +606,7 @@ def rule_A(ctx):
         for c in calls:
             a_cut = c.kwargs.get('cut', c.args[0] if c.args else None)
             a_od = c.kwargs.get('output_dict', c.args[1] if len(c.args) > 1 else None)
-            ok = isinstance(a_cut, Rat) and a_cut.single_atom() == p.params[1] and vr(a_od) in ('self.DISTANCES', "dict()") or \
+            ok = isinstance(a_cut, Rat) and a_cut.single_atom() == p.params[1] and vr(a_od) in ('self.DISTANCES', "dict()", 'dict<{}>') or \
                 (isinstance(a_cut, Rat) and a_cut.single_atom() == p.params[1] and isinstance(a_od, Rat))
             ctx.check(ok, 'C06.A', p, 'prepare fills self.DISTANCES with the caller\'s cut-off', witness={'call': unparse(c.node)}, node=c.node, key='prepare')
     ps = ctx.prog.func(NET + '.prepared_shortest_distance')
